@@ -33,7 +33,7 @@ COMPONENTS = {"real": ["pel.peltool.peltool.main() in-process, all decoders"],
 ASSUMPTIONS = ["a damaged copy that a mode still decodes is legitimately reported and is excluded from the equality relation for that mode (it still must not break well-formedness of stdout)",
                "stdout of --json is not required to be JSON (its product is files); the set and bytes of output files are compared instead",
                "interpreter at optimisation level 0 (C05 covers -O)"]
-PROBES = ["class_search_junk", "junk_other_creator", "junk:torn", "junk:flip", "junk:lost", "junk:garbage", "junk:foreign", "subdir", "junk_still_decodable",
+PROBES = ["leftover_output_file", "class_search_junk", "junk_other_creator", "junk:torn", "junk:flip", "junk:lost", "junk:garbage", "junk:foreign", "subdir", "junk_still_decodable",
           "junk_shares_eid", "mode:-j", "mode:--src-exclude", "hex"]
 
 DIR_MODES = ["-l", "-a", "-n", "--plid", "--src", "--src-exclude", "-j"]
@@ -61,7 +61,9 @@ def gen_plan(rng, tier, run):
         else:
             data = pelgen.build(rec)
             j = common.gen_junk(rng, data, pelgen.section_offsets(rec), fields=pelgen.field_offsets(rec))
-        junk.append({"name": rng.choice([src["name"] + ".part", "0" + src["name"], src["name"] + "~", "zz%d" % i, "A%d.pel" % i]),
+        junk.append({"name": rng.choice([src["name"] + ".part", "0" + src["name"], src["name"] + "~", "zz%d" % i, "A%d.pel" % i,
+                                         "disk_100%%_full_%d.pel" % i, "pel%%20copy%d" % i, "a{b}%d.pel" % i, "x y %d" % i,
+                                         "na\u00efve%d.pel" % i, "%%s%%d%d" % i, "quote'\"%d" % i]),
                      "recipe": rec, "junk": j})
     names = set(f["name"] for f in files)
     junk = [j for j in junk if j["name"] not in names and not names.add(j["name"])]
@@ -78,6 +80,7 @@ def gen_plan(rng, tier, run):
             "flags": [x for x in ("-r", "-P") if rng.random() < 0.2],
             "ext": ".pel" if rng.random() < 0.15 else None,
             "hex": rng.random() < 0.25,
+            "leftover": rng.randrange(1, 1 << 16) if rng.random() < 0.3 else 0,
             "class_search": rng.randrange(1, 1 << 16) if rng.random() < 0.3 else 0,
             "stdout_encoding": rng.choice(["utf-8", "utf-8", "utf-8", "ascii", "latin-1"]),
             "plid": "%08X" % some["plid"],
@@ -203,6 +206,14 @@ def execute(plan):
                         shutil.rmtree(p)
                 common.put_store(w, d, plan["files"] + items)
                 w.mkdir("OUT-" + d)
+                if mode == "-j" and tag != "B" and plan.get("leftover") and "B" in runs:
+                    # junk in the OUTPUT directory: an empty / half-written file left by an interrupted earlier run,
+                    # named exactly like a healthy PEL's output
+                    names = sorted(runs["B"][1])
+                    if names:
+                        nm = names[plan["leftover"] % len(names)]
+                        w.put("OUT-%s/%s" % (d, nm), [b"", b"{\n    \"Private Header\": {", b"\x00\x00\x00"][plan["leftover"] % 3])
+                        bump("leftover_output_file")
                 if tag != "B":
                     for sd in plan["subdirs"]:
                         w.mkdir(d + "/" + sd["name"])
